@@ -712,7 +712,16 @@ func (r *Renderer) renderTexts(w util.BufWriter, source []byte, n ast.Node) {
 		if s, ok := c.(*ast.String); ok {
 			_, _ = r.renderString(w, source, s, true)
 		} else if t, ok := c.(*ast.Text); ok {
-			_, _ = r.renderText(w, source, t, true)
+			// plain text only: a line break inside an attribute value is
+			// a newline, never a <br> tag
+			if t.IsRaw() {
+				r.Writer.RawWrite(w, t.Segment.Value(source))
+			} else {
+				r.Writer.Write(w, t.Segment.Value(source))
+				if t.HardLineBreak() || t.SoftLineBreak() {
+					_ = w.WriteByte('\n')
+				}
+			}
 		} else {
 			r.renderTexts(w, source, c)
 		}
